@@ -67,7 +67,8 @@ func (e *eventV1) JoinRule() (string, error) {
 		return "", fmt.Errorf("gomatrixserverlib: JoinRule() event is not a m.room.join_rules event, bad state key")
 	}
 	var content JoinRuleContent
-	if err := json.Unmarshal(e.eventFields.Content, &content); err != nil {
+	// the member named exactly "join_rule", as the auth rules read it (NewJoinRuleContentFromAuthEvents)
+	if err := json.Unmarshal(exactMembersOnly(e.eventFields.Content, &content), &content); err != nil {
 		return "", err
 	}
 	return content.JoinRule, nil
@@ -78,7 +79,8 @@ func (e *eventV1) HistoryVisibility() (HistoryVisibility, error) {
 		return "", fmt.Errorf("gomatrixserverlib: HistoryVisibility() event is not a m.room.history_visibility event, bad state key")
 	}
 	var content HistoryVisibilityContent
-	if err := json.Unmarshal(e.eventFields.Content, &content); err != nil {
+	// the member named exactly "history_visibility": the one redaction keeps and other implementations read
+	if err := json.Unmarshal(exactMembersOnly(e.eventFields.Content, &content), &content); err != nil {
 		return "", err
 	}
 	return content.HistoryVisibility, nil
